@@ -38,6 +38,8 @@ def run(ctx, rep):
     rep.rule("R2.4", "optional constraint values (cub_val/ceq_val/fun_val) are consumed by the functions that accept them")
     rep.rule("R2.5", "reduced-space operations never receive a build_x result and the user-space bounds only build_x results")
     rep.rule("R2.6", "Problem.violation aggregates bound, linear and nonlinear violations; maxcv functions return a maximum")
+    rep.rule("R2.7", "constraint wrappers bind function and arguments at creation (no late-bound loop variable): each constraint is evaluated as the user stated it")
+    rep.rule("R2.8", "the point retained by the evaluation routine (filter/history) does not alias solver state that is later modified in place")
     pb = ctx.repo.cls("Problem")
     ops, nblocks = common.check_lockstep(ctx, rep, "R2.2", pb, FILTER, "filter")
     if nblocks < 3:
@@ -49,6 +51,8 @@ def run(ctx, rep):
     if n < 8:
         raise AnalysisError(f"only {n} reduced-space operations found (floor 8)")
     r26(ctx, rep)
+    common.check_closure_capture(ctx, rep, "R2.7")
+    r28(ctx, rep)
 
 
 # ---------------------------------------------------------------------------
@@ -384,3 +388,95 @@ def _from_violation(ctx, g, e):
                     return False
         return True
     return False
+
+
+# ---------------------------------------------------------------------------
+def resolve_fields(ctx, f, e, depth=0):
+    """(Class, field) pairs an expression may denote (through trivial getters)."""
+    out = set()
+    if depth > 6:
+        return out
+    while isinstance(e, ast.Subscript):
+        e = e.value
+    if not isinstance(e, ast.Attribute):
+        return out
+    for a in ctx.type_of(e.value, f):
+        if a[0] != "inst":
+            continue
+        c = ctx.repo.classes.get(a[1])
+        if c is None:
+            continue
+        if e.attr in c.getters:
+            g = c.getters[e.attr]
+            for node in ast.walk(g.node):
+                if isinstance(node, ast.Return) and node.value is not None:
+                    out |= resolve_fields(ctx, g, node.value, depth + 1)
+        else:
+            out.add((a[1], e.attr))
+    return out
+
+
+def fields_written_in_place(ctx):
+    from ..ownership import Ownership
+    own = Ownership.__new__(Ownership)
+    own.ctx = ctx
+    out = {}
+    for f in ctx.repo.funcs.values():
+        for kind, base, node in Ownership.write_sites(own, f):
+            if kind in ("setattr",):
+                continue
+            if kind == "augassign" and isinstance(base, ast.Name):
+                continue
+            for fld in resolve_fields(ctx, f, base):
+                out.setdefault(fld, []).append((f, node))
+    return out
+
+
+def r28(ctx, rep, rule="R2.8"):
+    from ..alias import Alias
+    E = ctx.func(T.EVAL)
+    live = ctx.facts.live
+    reach = common.reachable_funcs(ctx, live=live)
+    mutable = fields_written_in_place(ctx)
+    # does the routine copy its argument before retaining it?
+    al_e = Alias(ctx, E)
+    retained_alias = False
+    for node in ast.walk(E.node):
+        if isinstance(node, ast.Call) and isinstance(node.func, ast.Attribute) and node.func.attr == "append" and node.args:
+            fld = common.field_of(node.func.value, E.self_name)
+            if fld in ("_x_filter", "_x_history"):
+                if al_e.roots(node.args[0], node.args[0]):
+                    retained_alias = True
+    if not retained_alias:
+        rep.ok(rule, "the evaluation routine stores a private copy of the point")
+        return
+    for ev in ctx.calls_to(E.qual):
+        if live.is_dead(ev) or ev.func.qual not in reach or not ev.node.args:
+            continue
+        f = ev.func
+        a = ev.node.args[0]
+        al = Alias(ctx, f)
+        roots = al.roots(a, a)
+        desc = f"{f.local}:{ev.line} point `{norm(a)}` retained by the evaluation routine"
+        bad = []
+        for r in roots:
+            if r.startswith("?"):
+                continue
+            # resolve the root text back to fields: parse it as an expression
+            try:
+                expr = ast.parse(r.replace("[*]", ""), mode="eval").body
+            except SyntaxError:
+                continue
+            for node in ast.walk(expr):
+                node._parent = None
+            flds = resolve_fields(ctx, f, expr)
+            for fld in flds:
+                if fld in mutable:
+                    w = mutable[fld][0]
+                    bad.append(f"{fld[0]}.{fld[1]} (modified in place at {w[0].local}:{w[1].lineno})")
+        if bad:
+            rep.bad(rule, desc)
+            rep.finding(rule, f, ev.text(), ev.line,
+                        f"the evaluated point handed to the evaluation routine aliases {bad[0]}; the routine keeps it in the filter, so the stored x changes afterwards and no longer belongs to its fun/maxcv")
+        else:
+            rep.ok(rule, desc + (" is a fresh array" if not roots else f" aliases only {sorted(roots)[:2]} which is never modified in place"))
